@@ -273,6 +273,16 @@ def check(ctx):
 
     # ---------------- R5
     check_counters(ctx, "C13.R5")
+    # ---------------- R6: discriminated data reaches the member's object node
+    ctx.rule("C13.R6", "discriminated union: the datum is handed to the member wrapped with the aliased discriminator key; object nodes unwrap it, remember the key and exempt it from the unexpected-property scan", floor=6)
+    from .common_object import object_protocol_rule
+    object_protocol_rule(ctx, "C13.R6", ["discriminated"])
+    dmf = model.func(f"{DESER_MOD}.DiscriminatorMethod.deserialize")
+    calls = [c for c in ast.walk(dmf.node) if isinstance(c, ast.Call) and isinstance(c.func, ast.Attribute) and c.func.attr == "deserialize"]
+    ok = len(calls) == 1 and calls[0].args and norm(calls[0].args[0]) == "Discriminated(self.alias, data)"
+    ctx.check(ok, "C13.R6", dmf.qualname + ":wrap", calls[0] if calls else dmf.node.body[0], "DiscriminatorMethod does not hand `Discriminated(self.alias, data)` to the selected member", dmf, dmf.node, detail="method.deserialize(Discriminated(self.alias, data))")
+    look = [x for x in ast.walk(dmf.node) if isinstance(x, ast.Subscript) and norm(x.value) == "self.mapping"]
+    ctx.check(len(look) == 1 and norm(look[0].slice) == "data[self.alias]", "C13.R6", dmf.qualname + ":lookup", look[0] if look else dmf.node.body[0], "the member is not selected by `self.mapping[data[self.alias]]`", dmf, dmf.node, detail="self.mapping[data[self.alias]]")
 
 
 def mutants(mb):
@@ -294,4 +304,6 @@ def mutants(mb):
     mb.add_text("expected-class-default-object", "apischema/serialization/__init__.py", "    else:\n        raise TypeError(f\"{tp} is not supported in union serialization\")", "    else:\n        return object", "C13.R4", "expected_class")
     mb.add_text("discriminator-key-overwrites", S, "        if isinstance(res, dict) and self.alias not in res:\n            res[self.alias] = self.key", "        if isinstance(res, dict):\n            res[self.alias] = self.key", "C13.R4", "DiscriminatedAlternative")
     counter_mutants(mb, "C13.R5")
+    mb.add_text("discriminator-key-forgotten", M, "            if isinstance(data, Discriminated):\n                discriminator = data.discriminator\n                data = data.data\n                if not isinstance(data, dict):\n                    raise bad_type(data, dict)\n            else:\n                raise bad_type(data, dict)\n        values: dict = {}", "            if isinstance(data, Discriminated):\n                data = data.data\n                if not isinstance(data, dict):\n                    raise bad_type(data, dict)\n            else:\n                raise bad_type(data, dict)\n        values: dict = {}", "C13.R6", "ObjectMethod:discriminated")
+    mb.add_text("discriminator-wrap-dropped", M, "            return method.deserialize(Discriminated(self.alias, data))", "            return method.deserialize(data)", "C13.R6", "wrap")
     mb.add_text("neg-exclusion-rewritten", D, "                and not (float in method_by_cls and int not in method_by_cls)\n", "                and (float not in method_by_cls or int in method_by_cls)\n", negative=True)
